@@ -122,7 +122,8 @@ Record var := mkVar {
   v_tsf : nat;               (* timeStepFactor *)
   v_flags : list bool;       (* f_cvc_active of each component *)
   v_pending : list bool;     (* colvar::cvc_flags: set by set_cvc_flags, applied at the next evaluation; [] = none *)
-  v_coeff : list Z           (* componentCoeff of each component *)
+  v_coeff : list Z;          (* componentCoeff of each component *)
+  v_exp : list nat           (* componentExp of each component (absent entries = 1): polynomial combination *)
 }.
 
 Record bias := mkBias {
@@ -148,7 +149,7 @@ Definition any_true (l : list bool) : bool := existsb (fun b => b) l.
 Definition update_flags (v : var) : var :=
   match v_pending v with
   | [] => v
-  | p => mkVar (v_tsf v) p (if any_true p then [] else p) (v_coeff v)
+  | p => mkVar (v_tsf v) p (if any_true p then [] else p) (v_coeff v) (v_exp v)
   end.
 (* "ERROR: All CVCs are disabled" *)
 Definition flags_error (v : var) : bool :=
@@ -156,7 +157,7 @@ Definition flags_error (v : var) : bool :=
 
 (* colvar::set_cvc_flags (script command cvcflags): refused unless one flag per component *)
 Definition set_flags (v : var) (p : list bool) : var :=
-  if Nat.eqb (length p) (length (v_flags v)) then mkVar (v_tsf v) (v_flags v) p (v_coeff v) else v.
+  if Nat.eqb (length p) (length (v_flags v)) then mkVar (v_tsf v) (v_flags v) p (v_coeff v) (v_exp v) else v.
 
 (* the variables as calc_colvars sees them at step t: flags of the active ones updated *)
 Definition prep_var (t : nat) (v : var) : var := if awake (v_tsf v) t then update_flags v else v.
@@ -179,7 +180,7 @@ Definition var_items (p : nat * var) : list (nat * nat) :=
   map (pair (fst p)) (seq 0 (count_true (v_flags (snd p)))).
 Definition build_items (avs : list (nat * var)) : list (nat * nat) := flat_map var_items avs.
 
-Definition flags_of (vs : list var) (v : nat) : list bool := v_flags (nth v vs (mkVar 0 [] [] [])).
+Definition flags_of (vs : list var) (v : nat) : list bool := v_flags (nth v vs (mkVar 0 [] [] [] [])).
 
 (* calc_component_smp(i) = colvars_smp[i]->calc_cvcs(colvars_smp_items[i], 1): the (variable, component) pairs it evaluates *)
 Definition item_evaluates (vs : list var) (it : nat * nat) : list (nat * nat) :=
@@ -231,11 +232,12 @@ Definition zsum (l : list Z) : Z := fold_left Z.add l 0.
 Definition comp_item (p : nat * nat) : sitem :=
   mkItem [LIn (fst p) (snd p)] [LCvc (fst p) (snd p)] (fun s _ => s (LIn (fst p) (snd p))).
 
-(* collect_cvc_data of variable v: x = sum over the enabled components of sup_coeff * value *)
+(* collect_cvc_data of variable v: x = sum over the enabled components of sup_coeff * value^sup_np
+   (colvar::collect_cvc_values, scalar branch: integer_power when sup_np != 1) *)
 Definition collect_item (p : nat * var) : sitem :=
   let v := fst p in let en := enabled (v_flags (snd p)) in
   mkItem (map (LCvc v) en) [LX v]
-         (fun s _ => zsum (map (fun c => nth c (v_coeff (snd p)) 1 * s (LCvc v c)) en)).
+         (fun s _ => zsum (map (fun c => nth c (v_coeff (snd p)) 1 * Z.pow (s (LCvc v c)) (Z.of_nat (nth c (v_exp (snd p)) 1%nat))) en)).
 
 (* harmonic bias b: update() reads its variables' values, writes its own energy and colvar_forces.
    LBiasE holds k * sum (x - c)^2 = twice the energy (kept integral) *)
